@@ -302,6 +302,16 @@ def rule_clamp(ctx, py):
                         and pyfe.src(n.iter).replace(" ", "") == "range(len(cgchstt))"
                     ctx.check(ok, R, st, f._qual, pyfe.src(st), "every group flag is min(sum of member flags, 1)",
                               "the group flag is not the clamped sum of its members' flags")
+    # the same element-wise map written as a comprehension over the list itself
+    for st in ast.walk(f):
+        if isinstance(st, ast.Assign) and pyfe.src(st.targets[0]) == "cgchstt" and isinstance(st.value, ast.ListComp) and \
+                len(st.value.generators) == 1 and pyfe.src(st.value.generators[0].iter) == "cgchstt":
+            g_ = st.value.generators[0]
+            v = pyfe.src(pya._strip_int(st.value.elt)).replace(" ", "")
+            e_ = pyfe.src(g_.target)
+            found = True
+            ctx.check(v in ("min(%s,1)" % e_, "min(1,%s)" % e_) and not g_.ifs, R, st, f._qual, pyfe.src(st)[:80],
+                      "every group flag is min(sum of member flags, 1)", "the group flag is not the clamped sum of its members' flags")
     ctx.need(found, R, "clamping loop over cgchstt not found")
     # the flags handed to the coarse system are the clamped ones
     asg = [st for st in ast.walk(f) if isinstance(st, ast.Assign) and pyfe.src(st.targets[0]) == "cgsystem.chemostats"]
